@@ -2,6 +2,7 @@
 is built from /repo's working tree, budgets, and the static evidence fields."""
 
 BUILD_VH = [{"cmd": ["cargo", "build", "--release", "--offline", "-p", "vh"]}]
+BUILD_VTEXT = [{"cmd": ["cargo", "build", "--release", "--offline", "-p", "vtext"]}]
 
 PROPS = {
     "C01": {
@@ -196,6 +197,55 @@ PROPS = {
         "assumptions": [
             "expected sets come from the generator's own scoping, never from glas",
             "`value.` field completion is checked on typed programs only (C09 engine), because scoped-mode programs may be ill-typed",
+        ],
+    },
+    "C14": {
+        "bin": "m_text",
+        "build": BUILD_VTEXT,
+        "level": "exploration",
+        "budget": {"quick": 10, "thorough": 300},
+        "timeout": {"quick": 900, "thorough": 7200},
+        "death_is_violation": False,
+        "rule": ("documents = exhaustively all strings of <=6 [thorough 7] symbols over {a, LF, 2-byte, 3-byte, 4-byte (2 UTF-16 units)} plus seeded random documents up to 64 KiB with long lines and dense astral runs; "
+                 "for every character boundary: line_col_for_pos == the model client's (line, UTF-16 column), pos_for_line_col round trip, strict monotonicity, from_pos agreement; for all (sampled beyond 40 boundaries) ordered pairs "
+                 "to_range selects exactly text[a..b] in the model; last_line and end_col_for_line agree with the model. Non-trivial = contains a multi-byte character and a line break; distinct by FNV-1a."),
+        "exhaustive_scope": "documents up to the stated length over the 5-symbol alphabet, all boundaries and all ordered pairs",
+        "assumptions": [
+            "LineMap values are obtained through Vfs::set_path_content, i.e. the constructor the server uses; conversions are called through thin wrappers of glas::convert (feature verif)",
+            "documents are CR-free here (the server strips CR on ingestion; CRLF handling is C13's)",
+        ],
+    },
+    "C19": {
+        "bin": "m_text",
+        "build": BUILD_VTEXT,
+        "level": "exploration",
+        "budget": {"quick": 15, "thorough": 400},
+        "timeout": {"quick": 900, "thorough": 7200},
+        "death_is_violation": False,
+        "rule": ("(a) encoder, exhaustive: all documents of <=5 [thorough 6] symbols over {a, b, space, LF, 2-byte, 4-byte} x all position-sorted sets of disjoint single-line word ranges x rotating tags -> glas::convert::to_semantic_tokens -> "
+                 "LSP decoder model: strictly increasing, non-empty, inside its line, type in legend, and decoded (line, UTF-16 start, length, type) == the model's for each range; (b) end to end: generated programs with non-ASCII strings "
+                 "and comments -> Analysis::syntax_highlight -> encoder -> decoder, compared with the generator's sidecar (uses of functions -> function, constructor uses and constructor declaration names -> type, module qualifiers -> namespace, "
+                 "constants/types/fields/declaration names -> not highlighted, nothing highlighted that is not an identifier); range requests == intersecting sub-sequence of the full answer. Non-trivial = >=2 ranges and a multi-byte character."),
+        "exhaustive_scope": "encoder inputs over the small-document space; programs are sampled",
+        "assumptions": [
+            "locals: the generator does not know whether a local is function-typed in scoped mode, either tag is accepted there (typed programs: see C09 engine)",
+            "the server-level path (textDocument/semanticTokens/full|range over stdio) is exercised by the black-box engine",
+        ],
+    },
+    "C13": {
+        "bin": "m_text",
+        "build": BUILD_VTEXT,
+        "level": "exploration",
+        "budget": {"quick": 12, "thorough": 300},
+        "timeout": {"quick": 900, "thorough": 7200},
+        "death_is_violation": False,
+        "rule": ("in-process part: exhaustively all documents of <=5 [thorough 6] symbols over {a, LF, CRLF, 2-, 3-, 4-byte} x all valid ordered position pairs (UTF-16 columns) x 7 replacement strings (empty, a, LF, CRLF, 2-byte, 4-byte, a CRLF 2-byte) "
+                 "through the primitive sequence of on_did_change (Vfs::set_path_content, convert::from_range, Vfs::change_file_content); seeded sequences of 2-20 edits with full replacements on documents up to 2 KiB. "
+                 "After every edit the server's text must equal the model client document without CR and the stored line map must equal one built from scratch. Non-trivial = document with a multi-byte character or CRLF; distinct by FNV-1a of (doc, edit)."),
+        "exhaustive_scope": "single edits over the small-document space (in-process part)",
+        "assumptions": [
+            "the per-notification loop of Server::on_did_change itself (several changes per notification, line map re-read between changes, JSON layer) is exercised by the black-box engine m_lsp (C13 second half, see evidence counters prefixed bb_)",
+            "reference model: vh::lspmodel::Doc, written from the LSP specification (lines end at LF or CRLF; columns in UTF-16 code units)",
         ],
     },
 }
